@@ -419,6 +419,50 @@ def r1_r2_r5(run: Run, rt):
                             run.note(f'{h}: quantize without an explicit rounding mode (context default = half-even)')
 
 
+ROUND_CASES = [
+    (2.5, 0), (-2.5, 0), (3.5, 0), (0.5, 0), (1.5, 0), (2.4, 0), (2.6, 0), (-2.4, 0), (-2.6, 0), (1.005, 2), (2.675, 2), (1.045, 2),
+    (0.285, 2), (3.14, 2), (3.14, 5), (3.14159, 3), (0.1, 1), (0.3, 1), (2.999, 2), (-3.14159, 2), (123.456, -1), (125, -1), (-125, -1),
+    (1250, -2), (149.9, -2), (0, 0), (0, 2), (7, 0), (7, 3), (1e-7, 3), (123456.789, 2), (1234567890.1234, 6), (99.995, 2), (-0.5, 0),
+    (0.000123456, 8), (5.55, 1), (1.15, 1), (1e15, 0), (1e20, 2), (8.04, 1), (2.5, 0.9), (2.55, 1.7), (True, 0),
+]
+
+
+def excel_round(x, d, mode):
+    from decimal import Decimal, Context
+    shown = Decimal(format(float(x), '.15g'))
+    return float(shown.quantize(Decimal(1).scaleb(-int(d)), mode, Context(prec=800)))
+
+
+def r1_eval(run: Run, rt):
+    """ROUND / ROUNDUP / ROUNDDOWN decided by abstract evaluation (engine F; decimal arithmetic is done by the standard library
+    on concrete numbers): the number as Excel shows it (15 significant digits) is rounded in decimal at the requested position --
+    half away from zero, away from zero, towards zero --, for positive, negative and zero digit counts"""
+    import decimal
+    from ..finite import evaluator_for, const_av, Unknown, AbsRaise
+    modes = {'_round': decimal.ROUND_HALF_UP, '_roundup': decimal.ROUND_UP, '_rounddown': decimal.ROUND_DOWN}
+    for cp in rt.copies():
+        for h, mode in modes.items():
+            fn = cp.members.get(h)
+            if fn is None:
+                run.bad('C16.R1', f'{h}[{cp.label}]', 'missing', f'helper {h} is missing', loc=cp.path)
+                continue
+            for x, d in ROUND_CASES:
+                want = excel_round(x, d, mode)
+                ev = evaluator_for(cp, max_depth=6)
+                construct = f'{h}[{cp.label}]/{x!r},{d!r}'
+                try:
+                    res = ev.call_method(h, [const_av(x), const_av(d)])
+                    got = res.val if isinstance(res.val, (int, float)) and not isinstance(res.val, bool) else repr(res)
+                except Unknown as u:
+                    raise AnalysisError('C16.R1', f'{construct}: the abstraction cannot follow the helper ({u})')
+                except AbsRaise as e:
+                    got = f'raises {e.exc}'
+                run.check(got == want, 'C16.R1', construct, 'rounded-value',
+                          f'{h[1:].upper()}({x!r}, {d!r}) gives {got!r}; the number as shown with 15 significant digits, rounded in decimal '
+                          f'{ {"_round": "half away from zero", "_roundup": "away from zero", "_rounddown": "towards zero"}[h] } at that '
+                          f'position, is {want!r}', fact=f'-> {got!r}', loc=cp.loc(fn))
+
+
 def r7_quantize_context(run: Run, rt):
     """Decimal.quantize raises InvalidOperation when the result needs more digits than the context precision: a double printed
     with 15 significant digits has up to 309 integer digits, and ROUND may ask for 15 more decimals -- the context must hold
@@ -506,7 +550,33 @@ def run(run: Run):
     run.rule('C16.R3', 'percent = /100 through the 15-significant-digit normaliser (shared with C01.R6)')
     run.rule('C16.R4', 'argument plumbing ROUND(number, digits); ROUNDUP/ROUNDDOWN digits default 0')
     run.rule('C16.R5', 'every returned value depends on the digit count')
-    run.guard('C16.R1', r1_r2_r5, run, rt)
+    evaluated = False
+    sub = Run('tmp', run.tier, run.seed, quiet=True)
+    try:
+        r1_eval(sub, rt)
+        evaluated = True
+    except AnalysisError as e:
+        run.note(f'C16.R1: the rounding helpers by structure only ({e.reason[:120]})')
+    if evaluated:
+        for o in sub.obligations:
+            if o['verdict'] == 'holds':
+                run.ok('C16.R1', o['construct'], o['fact'], loc=o['loc'])
+        for f_ in sub.findings:
+            run.bad('C16.R1', f_['construct'], f_['sub'], f_['message'], loc=f_['loc'])
+        # the structural reading (which primitive, which sign handling, for all numbers at once) is kept where the code can be read
+        sub2 = Run('tmp', run.tier, run.seed, quiet=True)
+        try:
+            r1_r2_r5(sub2, rt)
+            for o in sub2.obligations:
+                if o['verdict'] == 'holds':
+                    run.ok(o['rule'], o['construct'], o['fact'], loc=o['loc'])
+            for f_ in sub2.findings:
+                run.bad(f_['rule'], f_['construct'], f_['sub'], f_['message'], loc=f_['loc'])
+        except AnalysisError as e:
+            run.note(f'C16.R1/R2/R5: the structural reading gave up ({e.reason[:120]}); the evaluated cases decide')
+            run.extra['c16_structural_skipped'] = True
+    else:
+        run.guard('C16.R1', r1_r2_r5, run, rt)
     run.guard('C16.R3', r3, run, src, g, em, rt)
     run.guard('C16.R4', check_plumbing, run, 'C16.R4', src, em, rt, FUNCS)
     # a function result depends on its arguments only: no runtime helper keeps results or other state between calls
